@@ -224,13 +224,46 @@ def impl_clone(Ln, f):
             back.append(i)
             break
     obs['mutation_of_original_reaches_clone'] = back
+    # a formula that was hashed / used as a key and is EDITED afterwards through the public surface (an atom's `name`,
+    # wrap_subformulas) is still a formula: it must be == to, hash like and collide in sets/dicts with a freshly built
+    # formula of its CURRENT tree (a hash remembered from before the edit would break this)
+    inco = []
+    for route in ('rename', 'wrap'):
+        o3 = build(f, L)
+        hash(o3), {o3: 1}, str(o3)
+        for n in nodes_of(o3):
+            hash(n)
+        want = None
+        if route == 'rename':
+            leaves = [n for n in nodes_of(o3) if type(n).__name__ == 'AtomicProposition']
+            if not leaves:
+                continue
+            leaves[-1].name = leaves[-1].name + '_r'
+        else:
+            if is_leaf(o3) or len(o3._subformula) < 2:
+                continue
+            kids = list(o3.subformulas())
+            want = (f[0],) + tuple(reversed(f[1:]))
+            r3 = call(lambda: o3.wrap_subformulas(list(reversed(kids)), sys.modules[type(o3).__module__].Formula))
+            if r3[0] != 'ok':
+                continue
+        t3 = tree_of(o3)
+        if want is not None and t3 != want:
+            inco.append([route, 'tree after the edit is not the requested one'])
+            continue
+        g3 = build(t3, L)
+        co = [call(lambda: o3 == g3)[1], call(lambda: g3 == o3)[1], call(lambda: hash(o3) == hash(g3))[1],
+              call(lambda: len({o3, g3}) == 1)[1], call(lambda: {g3: 1}.get(o3) == 1)[1], call(lambda: o3 in {g3})[1]]
+        if co != [True] * 6:
+            inco.append([route, co])
+    obs['edited_formula_incoherent'] = inco
     return obs
 
 
 def clone_expected(Ln, f):
     return {'clone': 'ok', 'tree': f, 'langs': [Ln], 'same_classes': True, 'eq': [True, True, True], 'is_new_object': True,
             'shared_node_positions': [], 'shared_leaves_only': False, 'mutation_through_clone_reaches_original': [],
-            'mutation_of_original_reaches_clone': []}
+            'mutation_of_original_reaches_clone': [], 'edited_formula_incoherent': []}
 
 
 # ----------------------------------------------------------------------------------------
@@ -385,8 +418,10 @@ def check_clones(R, J, items):
         if obs != exp:
             diff = [k for k in exp if obs.get(k) != exp[k]]
             real = any(k in diff for k in ('clone', 'tree', 'langs', 'same_classes', 'eq', 'is_new_object',
-                                            'mutation_through_clone_reaches_original', 'mutation_of_original_reaches_clone'))
-            J.bad('clone() is not an equal, independent copy: %s' % ','.join(diff),
+                                            'mutation_through_clone_reaches_original', 'mutation_of_original_reaches_clone',
+                                            'edited_formula_incoherent'))
+            J.bad(('a formula edited after being hashed is ==, but does not hash/collide like, a fresh formula with the same tree'
+                   if diff == ['edited_formula_incoherent'] else 'clone() is not an equal, independent copy: %s' % ','.join(diff)),
                   {'kind': 'clone', 'lang': L, 'tree': f, 'tree_str': fstr(f), 'impl': obs, 'expected': exp, 'differs': diff},
                   no_input=not real)
         else:
